@@ -99,7 +99,7 @@ class SizedIterable(ReIterable):
 
     def __len__(self):
         self.log.lens += 1
-        return self.log.n if self.log.n is not None else 10 ** 9
+        return self.log.n if self.log.n is not None else 10 ** 6
 
 
 def counting_generator(log):
